@@ -4,6 +4,20 @@ pub open spec fn bufinv(sm: &StateMachine) -> bool {
     &&& (sm.painter.plus_lines@.len() > 0 ==> (sm.state is HunkPlus || sm.state is HunkHeader))
     &&& (sm.painter.minus_lines@.len() > 0 ==> (sm.state is HunkMinus || sm.state is HunkPlus || sm.state is HunkHeader))
 }
+/// Frame: every field of the state machine other than `painter` and `state` is unchanged.
+pub open spec fn sm_frame(a: &StateMachine, b: &StateMachine) -> bool {
+    &&& a.line == b.line && a.raw_line == b.raw_line && a.source == b.source && a.config == b.config
+    &&& a.minus_file == b.minus_file && a.plus_file == b.plus_file
+    &&& a.minus_file_event == b.minus_file_event && a.plus_file_event == b.plus_file_event
+    &&& a.diff_line == b.diff_line && a.mode_info == b.mode_info
+    &&& a.current_file_pair == b.current_file_pair
+    &&& a.handled_diff_header_header_line_file_pair == b.handled_diff_header_header_line_file_pair
+    &&& a.blame_key_colors == b.blame_key_colors && a.minus_line_counter == b.minus_line_counter
+}
+/// Frame for the painter: buffered lines and the writer's history are unchanged (the output buffer may be).
+pub open spec fn painter_keeps_lines(a: &Painter, b: &Painter) -> bool {
+    a.minus_lines@ == b.minus_lines@ && a.plus_lines@ == b.plus_lines@
+}
 /// What `handle_hunk_line` may add for the current line: the prepared line (marker column of the
 /// new state's diff type removed; nothing removed under word-diff), or - for a line that is not a
 /// hunk line (e.g. `\ No newline at end of file`) - the tab-expanded raw line.
